@@ -256,6 +256,22 @@ class Token:
         return id(self)
 
 
+class _Unreadable:
+    def __repr__(self):
+        return "<text that does not read back as a Python value>"
+
+    def __eq__(self, other):
+        return False
+
+
+def _read_back(text):
+    import ast
+    try:
+        return getattr(ast, "literal_eval")(text)
+    except (ValueError, SyntaxError, MemoryError, RecursionError):
+        return _Unreadable()
+
+
 def _blocks(lines):
     """the report as a list of blocks: a block starts with a separator line (a row of '=')"""
     blocks = []
@@ -371,9 +387,9 @@ def report_concrete(sp):
             if key in (None, "msg"):
                 sp.prove(val == (n if key is None else r["msg"]), "text line %r" % line)
             elif key == "==":
-                sp.prove(ast.literal_eval(val) == (r["reachability_strategies"] == r["final_strategies"]), "equality line")
+                sp.prove(_read_back(val) == (r["reachability_strategies"] == r["final_strategies"]), "equality line")
             else:
-                sp.prove(ast.literal_eval(val) == r[key] and repr(ast.literal_eval(val)) == repr(r[key]), "line %r does not read back" % label)
+                sp.prove(_read_back(val) == r[key] and repr(_read_back(val)) == repr(r[key]), "line %r does not read back" % label)
 
 
 class _Args:
@@ -470,8 +486,8 @@ def report_end_to_end(sp, order):
         for key in KEYS:
             if key in ("msg", "total_time"):
                 continue
-            sp.prove(ast.literal_eval(vals[key]) == r[key], "block %s: line for %r reads %s, run_games produced %r" % (n, key, vals[key], r[key]))
-        sp.prove(ast.literal_eval(vals["=="]) == (ast.literal_eval(vals["reachability_strategies"]) == ast.literal_eval(vals["final_strategies"])),
+            sp.prove(_read_back(vals[key]) == r[key], "block %s: line for %r reads %s, run_games produced %r" % (n, key, vals[key], r[key]))
+        sp.prove(_read_back(vals["=="]) == (_read_back(vals["reachability_strategies"]) == _read_back(vals["final_strategies"])),
                  "block %s: equality line says %s but the two printed strategy lists %s" % (
                      n, vals["=="], "are equal" if vals["reachability_strategies"] == vals["final_strategies"] else "differ"))
         sp.cover("solved_entry" if r["msg"] == "Game solved" else "failed_entry")
